@@ -78,3 +78,44 @@ contract(f"{TR}::PolynomialTrendForecaster._predict", "C11,C03,C12", cases=["rel
                                             {"self": o, "fh": o.attrs["_fh"], "X": None}))(mk_trend(B, True)),
          ensures=[("same-time-axis-as-fit-labelled-with-requested-points", _pred_post)],
          frame=lambda A: [A.self])
+
+
+# ----------------------------------------------------------------------------- exponential smoothing: every option reaches statsmodels under its own keyword
+ES = "sktime/forecasting/exp_smoothing.py"
+_ES_OPTS = {"trend": "trend", "damped_trend": "damped_trend", "seasonal": "seasonal", "sp": "seasonal_periods", "use_boxcox": "use_boxcox",
+            "initial_level": "initial_level", "initial_trend": "initial_trend", "initial_seasonal": "initial_seasonal",
+            "initialization_method": "initialization_method"}
+
+
+def _es_inputs(B, case):
+    I = B.I
+    ok, cls = I.mod_global(I.src.module("sktime.forecasting.exp_smoothing"), "ExponentialSmoothing")
+    if case == "defaults":
+        obj = I.instantiate(cls, [], {})                      # every option at its constructor default (several are None)
+        vals = {k: obj.attrs[k] for k in _ES_OPTS}
+    else:
+        obj = SObj(cls)
+        vals = {k: B.opaque("option_" + k) for k in _ES_OPTS}
+        obj.attrs.update(vals)
+    obj.ghost = dict(vals=vals)
+    return {"self": obj, "y": B.opaque("y"), "X": None}
+
+
+def _es_post(A, r):
+    from contracts.C07_evaluate import trace
+    evs = [e for e in trace() if e.method == "__init__"]
+    if len(evs) != 1:
+        return False
+    e = evs[0]
+    g = A.self.ghost["vals"]
+    fits = [x for x in trace() if x.obj is e.result and x.method == "fit"]
+    return len(e.args) == 1 and e.args[0] is A.y and set(e.kwargs) == set(_ES_OPTS.values()) and \
+        all((e.kwargs[kw] is g[p]) or (isinstance(g[p], (bool, int, str, type(None))) and type(e.kwargs[kw]) is type(g[p]) and e.kwargs[kw] == g[p])
+            for p, kw in _ES_OPTS.items()) and A.self.attrs.get("_forecaster") is e.result and \
+        len(fits) == 1 and not fits[0].args and not fits[0].kwargs and A.self.attrs.get("_fitted_forecaster") is fits[0].result
+
+
+contract(f"{ES}::ExponentialSmoothing._fit_forecaster", "C11", cases=["arbitrary-options", "defaults"], inputs=_es_inputs,
+         ensures=[("statsmodels-model-built-on-y-with-every-option-under-its-own-keyword-unchanged-then-fitted", _es_post, {"modular": False})],
+         notes=["statsmodels is external: the constructor call is recorded, not interpreted; the numbers it produces are compared with a "
+                "direct statsmodels call by the bounded tier"])
